@@ -3,7 +3,7 @@ import copy
 from datetime import timedelta
 
 from .. import hooks
-from ..gen import ZONE_TRANSITIONS, canon, dt_us, floor_ms, mk_event, rand_grid, td_us, zones_available
+from ..gen import ZONE_TRANSITIONS, big_n, canon, dt_us, floor_ms, mk_event, rand_grid, td_us, zones_available
 from ..model import ref_heartbeat_merge, ref_reduce
 from ._tx import exc_viol, tmod
 
@@ -222,7 +222,7 @@ def gen_case(rng, ctx):
         z2 = zone if rng.random() < 0.5 else None
         return dict(kind="pair", p=p, e1=dict(ts=base + s1 * unit, dur=d1, data=x1, zone=z1),
                     e2=dict(ts=max(0, s2), dur=d2, data=x2, zone=z2))
-    n = rng.randrange(0, 9)
+    n = big_n(rng, rng.randrange(0, 9))
     evs = []
     pos = rng.randrange(0, 5)
     for _ in range(n):
